@@ -54,7 +54,8 @@ def _case(draw):
             # a component that errors (collected, not raised) on the lines whose 'e' cell is 'x'
             prog["comps"].insert(draw(st.integers(0, len(prog["comps"]))), ["=", "zz", [], None, ["f", "add", [], [["h", "e"], ["t", 1]]]])
         members.append({"prog": prog, "scan": scan, "id": f"m{i}" if draw(st.integers(0, 3)) != 0 else None,
-                        "unmatched": draw(st.integers(0, 2)) == 0, "ending": ending})
+                        "unmatched": draw(st.integers(0, 2)) == 0, "ending": ending,
+                        "norun": draw(st.sampled_from([False, False, False, False, True]))})
     # dense columns appended after program generation: 'e' (benign '5' or offending 'x') and awkward 'note' cells
     table["cols"].append({"name": "e", "type": "err", "dense": True})
     table["cols"].append({"name": "note", "type": "note", "dense": True})
@@ -82,6 +83,8 @@ def member_text(m, filename=""):
         fields.append(f"id: {m['id']}")
     if m["unmatched"]:
         fields.append("unmatched-mode: keep")
+    if m.get("norun"):
+        fields.append("run-mode: no-run")
     meta = ("~ " + " ".join(fields) + " ~ ") if fields else ""
     return common.text_of(m["prog"], filename, m["scan"], comment=meta)
 
